@@ -267,10 +267,20 @@ def run_case(cls, params, rec):
 				if n1 < n0:
 					transitions += 1
 		rec.setadd("thread_ids_seen", len(h))
-		if ev and sorted(i for i, _, _ in ev) != list(range(len(order))):
-			return (dict(desc, what="trace: queries processed %s, expected "
-				"each of 0..%d once (%s)" % (sorted(i for i, _, _ in ev)[:40],
-				len(order) - 1, tag)), "C13/query-skipped-or-repeated")
+		if ev:
+			# every query must have been worked on - itself or a query with
+			# exactly the same content (identical queries may legitimately
+			# be computed once and copied) - and none twice
+			traced = [i for i, _, _ in ev]
+			content = [Qs[i].tobytes() + str(Qs[i].shape).encode()
+				for i in order]
+			done = {content[i] for i in traced if 0 <= i < len(order)}
+			if len(set(traced)) != len(traced) or any(not 0 <= i < len(order)
+				for i in traced) or any(c not in done for c in content):
+				return (dict(desc, what="trace: queries processed %s, "
+					"expected each of 0..%d (or an identical query) once "
+					"(%s)" % (sorted(traced)[:40], len(order) - 1, tag)),
+					"C13/query-skipped-or-repeated")
 		rec.count("executions_compared", len(order))
 		exp = base[:, order]
 		if not same_bits(val, exp):
